@@ -39,7 +39,7 @@ Base(kind, n) ==
     cid  |-> [i \in 1..n |-> IF kind = "cid" THEN (IF i = 1 THEN 0 ELSE 2 * i + 1) ELSE -1],
     fd   |-> [i \in 1..n |-> IF kind = "ttf" THEN -1 ELSE 0],
     comp |-> [i \in 1..n |-> << >>],
-    cmapcfg |-> "4", cmap |-> StdCmap(n),
+    nameset |-> "plain", cmapcfg |-> "4", cmap |-> StdCmap(n),
     hasenc |-> FALSE, enc |-> << >>,
     gsub |-> "none", ligs |-> << >>, ligsplit |-> 0, subs |-> << >>, subs2 |-> << >>,
     gpos |-> FALSE, pairs |-> << >>, pairs2 |-> << >> ]
@@ -106,7 +106,8 @@ CmapOf(codes, f) ==    \* f : 1..3 -> 0..n-1, 0 = not mapped
 FamC(n) ==
   { [CompLast(Base("ttf", n)) EXCEPT !.cmapcfg = cfg[1], !.cmap = CmapOf(cfg[2], f)] :
       cfg \in { <<"4", <<66, 67, 68>> >>, <<"12", <<66, 67, 68>> >>,            \* a run of consecutive codes
-               <<"12", <<66, 67, 128512>> >>, <<"4+12", <<66, 8364, 128512>> >> },
+               <<"4|12", <<66, 128512, 128513>> >>,    \* a format 12 subtable with the astral codes only
+               <<"4+12", <<66, 8364, 128512>> >> },
       f \in [1..3 -> 0..(n - 1)] }
   \cup { [CompLast(Base("ttf", n)) EXCEPT !.cmapcfg = "none", !.cmap = << >>] }
   \cup { [Base(k, n) EXCEPT !.cmapcfg = "4+12", !.cmap = CmapOf(<<66, 8364, 128512>>, f),
@@ -122,6 +123,18 @@ FamE(n) ==
   { [Base("cff", n) EXCEPT !.hasenc = TRUE, !.enc = CmapOf(<<40, 41, 200>>, f), !.gsub = g[1], !.ligs = g[2]] :
       f \in [1..3 -> 0..(n - 1)], g \in { <<"none", << >> >>, <<"l", << <<1, 2>> >> >> } }
   \cup { Base("cff", n) }
+
+\* N: simple CFF fonts whose glyphs carry StandardEncoding ("A", "B", "C": codes 65, 66, 67) or
+\* ExpertEncoding names ("zerooldstyle", ...: codes 48, 49, 50) with all built-in encodings on those three
+\* codes: the predefined encoding itself, sub-encodings that leave a standard-named glyph unencoded,
+\* permutations, and a super-set with a further code.  A writer that takes such an encoding for the
+\* predefined one (or a reader that rebuilds it from the names) changes what the codes mean.
+FamN(n) ==
+  { [Base("cff", n) EXCEPT !.nameset = ns[1], !.hasenc = TRUE, !.enc = CmapOf(ns[2], f) \o x] :
+      ns \in { <<"std", <<65, 66, 67>> >>, <<"expert", <<48, 49, 50>> >> },
+      f \in [1..3 -> 0..(n - 1)], x \in { << >> } }
+  \cup { [Base("cff", n) EXCEPT !.nameset = "std", !.hasenc = TRUE, !.enc = << <<65, 1>>, <<66, 2>>, <<200, 3>> >>],
+         [Base("ttf", n) EXCEPT !.nameset = "std"], [Base("ttf", n) EXCEPT !.nameset = "expert"] }
 
 \* M: composites x GSUB (a ligature output that is a composite, a component that is a rule input)
 MixComps(n) ==
@@ -153,10 +166,11 @@ FamS(n) ==
               <<"l",  << >>, << >>, << <<1, 2, 3>>, <<1, 2, 2>>, <<0, 1, 2>>, <<1, 3>> >>, 1>>,
               <<"ls", << <<0, 1>> >>, << >>, << <<1, 2, 3>>, <<2, 2>>, <<1, 2, 1>>, <<2, 1>> >>, 2>> } }
   \cup { Dense(Base("ttf", n)), Dense(Base("cff", n)), Dense(CompLast(Base("ttf", n))) }
+  \cup { [Base("ttf", n) EXCEPT !.out = [i \in 1..n |-> IF i <= 2 THEN -3 ELSE i - 1]] }   \* blank .notdef and space
 
 \* The families are instantiated in small MC modules (SubsetMC.tla, or generated by checks/C10.py):
 \* TLC evaluates every zero-arity constant definition at start-up, so they must not all live here.
-FamQ(n) == FamS(n) \cup FamT(n, 3, 1) \cup FamL(n, {"ttf"}, {3}) \cup FamP(n) \cup FamC(n) \cup FamD(n) \cup FamE(n) \cup FamM(n)
+FamQ(n) == FamS(n) \cup FamN(n) \cup FamT(n, 3, 1) \cup FamL(n, {"ttf"}, {3}) \cup FamP(n) \cup FamC(n) \cup FamD(n) \cup FamE(n) \cup FamM(n)
 
 (***************************************************************************)
 (* The subsetter.                                                           *)
